@@ -229,7 +229,7 @@ def c10(ctx, api):
     acc.add('GenOps: all ordered pairs of the 18 operator spellings%s x %d documents; operator triples (%s) x 256 documents'
             % (' with every unary prefix placement' if thorough else ' (+ every single operator with unary prefixes)',
                1000 if thorough else 343, '15^3, one spelling per operator' if thorough else '6^3, one operator per precedence level'), st, summ)
-    opset = '1..18' if thorough else '{1, 2, 3, 4, 6, 10, 11, 13, 15, 17, 18, 5, 7, 8, 9}'
+    opset = '{' + ', '.join(str(i) for i in range(1, 19)) + '}' if thorough else '{1, 2, 3, 4, 6, 10, 11, 13, 15, 17, 18, 5, 7, 8, 9}'
     st, summ = api['run_tlc_to_harness'](ctx, 'opforms', 'GenOpForms', cfg(constants={'Emit': 'TRUE', 'Prop': '"C10"', 'OpSet': opset}), timeout=3000)
     acc.add('GenOpForms: e1 op1 e2 [op2 e3] over every ordered pair of %s operators, one operand at a time written in one of 11 other forms '
             '(a call, a parenthesised field, @.x, $.x, an indexed multi-select list, a selected multi-select hash, a quoted identifier, a two-argument '
